@@ -1,5 +1,6 @@
 """C01 — degree-preserving rewiring keeps every node's degree and the weight multiset."""
 import os
+from fractions import Fraction as F
 import numpy as np
 from common import *
 from rewire_common import *
@@ -137,6 +138,14 @@ def rbu_case(ctx, lines=None, pend=None):
         ctx.fail(fn + ':raises', 'raised %s: %s' % (type(e).__name__, str(e)[:80]), case); return
     ev = [kw for tag, kw in _verif.LOG if tag == 'swap']; _verif.reset()
     ctx.case(case, nontrivial=len(ev) > 0); ctx.count('rbu:swaps', len(ev))
+    if lines is not None:
+        # full-routine correspondence: re-run with the recording generator, replay the draws in the model
+        rec = Rec(seed); _verif.reset()
+        X2 = call(bct.randomizer_bin_und, A, alpha, seed=rec, _t=5.0)
+        ev2 = [kw for tag, kw in _verif.LOG if tag == 'swap']; _verif.reset()
+        draws = flatten_draws(rec.log)
+        lines.append('rbufull %s %s %d %s' % (enc_mat(A.astype(int).tolist()), enc_q(F(alpha)), len(draws), ' '.join(draws)))
+        pend.append(('rbufull', case, (np.asarray(X2, dtype=float), ev2)))
     X = np.asarray(X, dtype=float)
     ctx.check(np.array_equal(degs(A)[0], degs(X)[0]), fn + ':degree', 'degree of some node changed', case)
     ctx.check(np.array_equal(X, X.T), fn + ':sym', 'asymmetric output', case)
@@ -158,9 +167,54 @@ def rbu_case(ctx, lines=None, pend=None):
         prev = R
 
 
+def exhaustive_slice(ctx, lines, pend):
+    """all undirected graphs on 5 nodes / all digraphs on 4 nodes that lie in the domain (two vertex-disjoint edges),
+    one recorded run each (quick: every 16th graph)"""
+    import itertools
+    step = 1 if ctx.thorough else 16
+    cnt = 0
+    n = 5
+    pairs = [(i, j) for i in range(n) for j in range(i)]
+    for code in range(0, 2 ** len(pairs), step):
+        A = np.zeros((n, n))
+        for b, (i, j) in enumerate(pairs):
+            if code >> b & 1:
+                A[i, j] = A[j, i] = 1
+        if not two_disjoint_edges(A, True):
+            continue
+        fn = ['randmio_und', 'latmio_und', 'randmio_und_connected'][cnt % 3]
+        cnt += 1
+        if fn in CONN and not connected_und(A):
+            fn = 'randmio_und'
+        res = run_impl(fn, A, 1, 1000 + code)
+        case = {'fn': fn, 'A': A.astype(int).tolist(), 'itr': 1, 'seed': 1000 + code, 'D': None}
+        ctx.case(case, nontrivial=len(res['events']) > 0); ctx.count('exhaustive:und5')
+        oracle(ctx, fn, A, res, case)
+        if not res['error']:
+            lines.append(model_line(fn, A, 1, res['draws'])); pend.append((fn, case, res))
+    n = 4
+    cells_ = [(i, j) for i in range(n) for j in range(n) if i != j]
+    for code in range(0, 2 ** len(cells_), step):
+        A = np.zeros((n, n))
+        for b, (i, j) in enumerate(cells_):
+            if code >> b & 1:
+                A[i, j] = 1
+        if not two_disjoint_edges(A, False):
+            continue
+        fn = ['randmio_dir', 'latmio_dir'][cnt % 2]
+        cnt += 1
+        res = run_impl(fn, A, 1, 2000 + code)
+        case = {'fn': fn, 'A': A.astype(int).tolist(), 'itr': 1, 'seed': 2000 + code, 'D': None}
+        ctx.case(case, nontrivial=len(res['events']) > 0); ctx.count('exhaustive:dir4')
+        oracle(ctx, fn, A, res, case)
+        if not res['error']:
+            lines.append(model_line(fn, A, 1, res['draws'])); pend.append((fn, case, res))
+
+
 def run(ctx):
     ctx.extra['translator_unrecognised'] = PREGEN_NOTES
     lines, pend = [], []
+    exhaustive_slice(ctx, lines, pend)
     per = ctx.scale(28, 300)
     for fn in ROUTINES:
         for _ in range(per):
@@ -174,6 +228,23 @@ def run(ctx):
     for (fn, case, r), m in zip(pend, res):
         if is_err(m):
             ctx.mismatch(fn, 'model error: ' + m['error'], case); continue
+        if fn == 'rbufull':
+            X2, ev2 = r
+            if m['code'] != 0:
+                ctx.mismatch('randomizer_bin_und', 'model code %d where the implementation returns' % m['code'], case); continue
+            M = np.array(dec_deep(m['out'], dec_z), dtype=float).reshape(X2.shape)
+            if not np.array_equal(M, X2):
+                ctx.mismatch('randomizer_bin_und', 'returned matrix differs', case, M, X2); continue
+            if m['left'] != 0 or len(m['trace']) != len(ev2):
+                ctx.mismatch('randomizer_bin_und', 'draws unread (%d) or number of swaps differs (%d vs %d)' % (m['left'], len(m['trace']), len(ev2)), case); continue
+            for t, (e, me) in enumerate(zip(ev2, m['trace'])):
+                Rw = np.where(np.isinf(e['R']), 2, e['R']).astype(float)
+                Mw = np.array(dec_deep(me['R'], dec_z), dtype=float).reshape(Rw.shape)
+                kk = len(e['i'])
+                if [int(v) for v in e['abcd']] != me['abcd'] or not np.array_equal(Rw, Mw) or \
+                   [int(v) for v in e['i']] != me['i'][:kk] or [int(v) for v in e['j']] != me['j'][:kk]:
+                    ctx.mismatch('randomizer_bin_und', 'working state after swap %d differs' % t, case); break
+            continue
         if fn == 'rbu':
             adm, rows = m
             M = np.array(dec_deep(rows, dec_z), dtype=float).reshape(r.shape)
